@@ -12,7 +12,9 @@ RULE = ("case = history executed (i) in a fresh Cello Thread (teardown = collect
         "arena-allocated; 48 bytes, 52 bytes, 1 MiB and size 0; one with a malloc'd side block of its own; one whose "
         "DESTRUCTOR ALLOCATES 0..4 managed, ledger-tracked objects - the first of them again such an object for up to 3 "
         "generations - finalised by explicit del / del_root / del_raw, through its owning Box, by forced and threshold sweeps "
-        "(bursts of 4..24 of them, so that the births inside one sweep cross the collection threshold) and by teardown), copy (also inside stop windows), explicit del / del_root / "
+        "(bursts of 4..24 of them, so that the births inside one sweep cross the collection threshold) and by teardown; in a "
+        "quarter of the cases the end of the history makes root objects owned by managed Boxes, allocating destructors "
+        "and an ordinary root meet in the same teardown), copy (also inside stop windows), explicit del / del_root / "
         "del_raw, Box ownership with the owner allocated before or after the owned object, chains and cycles of Boxes, a "
         "garbage Box whose pointee is still registered when the sweep finalises the Box, Array<Box> / List<Box> / "
         "Table<Int,Box> / Tree<Int,Box> owners with pop / pop_at / rem / resize 0 / del / drop, managed, root and raw library "
@@ -451,6 +453,7 @@ def _case(draw):
             ops.append(["start"])
         else:
             ops.append(["note", "teardown-while-stopped"])      # the thread / program ends with its collector stopped
+    ended_stopped = bool(ops) and ops[-1] == ["note", "teardown-while-stopped"]
     for h in rootraw:
         ops.append(["del", h, "now"])
     for slot in sorted(kept):
@@ -458,7 +461,45 @@ def _case(draw):
     if draw(st.booleans()):
         for slot in sorted(kept):
             ops.append(["unstk", slot])
+        kept = {}
         ops.append(["collect"])
+    if draw(st.integers(0, 3)) == 0 and not ended_stopped:
+        # "teardown mix": things that must meet in the SAME teardown (thread exit / program exit), all alive until then:
+        # root-registered objects that a managed Box owns (the teardown sweep finalises the Box, whose destructor
+        # releases the still registered root), objects with allocating destructors (k >= 1, up to 3 generations), and
+        # optionally a root nobody owns, deleted by the case itself as usual
+        ops.append(["note", "teardown-mix"])
+        for slot in range(9, 16):
+            if slot in kept:
+                ops.append(["unstk", slot])         # make room (what was held there becomes garbage)
+                del kept[slot]
+        slot = 9
+        r2 = None
+        if draw(st.booleans()):
+            nobj += 1
+            r2 = nobj
+            ops.append(["new", r2, "node", "root"])
+        for _ in range(draw(st.integers(1, 3))):
+            nobj += 2
+            r, b = nobj - 1, nobj
+            rk = draw(st.sampled_from(["node", "node", "nodea", "noded", "arr", "tup"]))
+            if rk == "noded":
+                ops.append(["new", r, "noded", "root", draw(st.integers(0, 2)), born_next, draw(st.sampled_from([1, 1, 2]))])
+                born_next += 8
+            else:
+                ops.append(["new", r, rk, "root"])
+            ops.append(["own", r])                  # from now on released through its Box (Box_Del -> del)
+            ops.append(["new", b, "box", "m", r])
+            ops.append(["stk", slot, b])
+            slot += 1
+        for _ in range(draw(st.integers(1, 3))):
+            nobj += 1
+            ops.append(["new", nobj, "noded", "m", draw(st.sampled_from([1, 1, 1, 2, 3])), born_next, draw(st.sampled_from([1, 1, 2, 3]))])
+            born_next += 8
+            ops.append(["stk", slot, nobj])
+            slot += 1
+        if r2 is not None:
+            ops.append(["del", r2, "now"])
     # "joinlate": the creating thread joins only after the thread's function has returned (plus a spin): join must
     # still wait for the teardown of the thread's collector.  A stimulus only; the oracle stays the ledger.
     return {"ops": ops, "cfg": draw(st.sampled_from(["asan", "plain", "plain"])), "mode": draw(st.sampled_from(["thread", "thread", "thread", "main"])),
@@ -509,6 +550,8 @@ def encode(case):
             emit("popat %d %d" % (op[1], op[2]))
         elif o == "clear":
             emit("clear %d" % op[1])
+        elif o == "own":
+            emit("own %d" % op[1])
         elif o == "dt1":
             emit("dt %d" % op[1], "dtor=1")
         elif o == "dt0":
